@@ -1071,6 +1071,7 @@ var evalCorpus = []string{
 	"T | where s =~ 'A' | count", "T | where a == null | count", "T | where a != 1 | count", "T | extend n1 = strcat(s, 'x') | take 3",
 	"T | top 1 by a | sort by b | take 1", "T | take 3 | summarize count()", "T | summarize n1 = count() | take 1",
 	"T | project a, b | take 1 | project a", "T | sort by a | project a", "T | sort by a | where b > 0", "T | take 2 | extend n1 = 1 | sort by a",
+	"let $left = 1; T | join kind=inner (U) on not($left == $right.k) | count", "let $right = 1; T | join kind=inner (U) on not($left.k == $right) | count",
 	"T | summarize by k | join kind=inner (U) on k | join (V) on k", "T | count | extend k = 1 | join kind=leftouter (U) on k | join (V) on k",
 	"T | summarize n1 = count() by k | where n1 > 0 | join kind=inner (U | project k, n2 = b) on k | join kind=innerunique (V | project k, n3 = c) on k",
 	"T | sort by a desc | where k > 0 | take 2 | summarize n1 = sum(a)", "T | sort by a | extend n1 = a * 2 | take 2 | summarize n2 = min(a), n3 = max(n1) by k",
@@ -1107,7 +1108,11 @@ func genEvalCases(tier string, emit func(op string, fields ...string)) {
 	}
 	seed := 0
 	for _, s := range evalCorpus {
-		for k := 0; k < 3; k++ {
+		reps := 3
+		if strings.HasPrefix(s, "let $") {
+			reps = 12 // known finding K5 shows only on databases with a NULL join key
+		}
+		for k := 0; k < reps; k++ {
 			seed++
 			emit("EVAL", hexs(s), strconv.Itoa(seed*7))
 		}
